@@ -82,7 +82,7 @@ func (d *PathDecoder) SignatureAtPos(filename string, pos hcl.Pos) (*lang.Functi
 			recoveredBytes := recoverLeftBytes(file.Bytes, pos, func(byteOffset int, r rune) bool {
 				return r == ',' && byteOffset > lastArgEndPos.Byte
 			})
-			trimmedBytes := bytes.TrimRight(recoveredBytes, " \t\n")
+			trimmedBytes := bytes.TrimRight(recoveredBytes, " \t\r\n")
 			if string(trimmedBytes) == "," {
 				activePar = lastArgIdx + 1
 			}
